@@ -127,7 +127,7 @@ func gsxC06Defaults() {
 	tagsA := gsxTagsN("A", 3, 12)
 	cats := 0
 	for _, t := range tagsA {
-		gsxrt.Assume(gsxrt.Matches(`^(diagnostic|style|performance|experimental|opinionated)$`, t))
+		gsxrt.Assume(gsxrt.Matches(`^(diagnostic|style|performance|experimental|opinionated|security)$`, t))
 		cats += gsxrt.Count(t == "diagnostic", t == "style", t == "performance")
 	}
 	gsxrt.Assume(cats == 1)
@@ -139,9 +139,15 @@ func gsxC06Defaults() {
 	flagDebugInit = false
 	got := filterCheckersList([]*linter.CheckerInfo{infoA})
 	gsxrt.Reached("defaults")
-	heavy := false
+	heavy, security := false, false
 	for _, t := range tagsA {
-		heavy = gsxrt.Or(heavy, t == "experimental", t == "opinionated", t == "performance", t == "security")
+		heavy = gsxrt.Or(heavy, t == "experimental", t == "opinionated", t == "performance")
+		security = gsxrt.Or(security, t == "security")
+	}
+	if security && !heavy {
+		gsxrt.Reached("security tag")
+		gsxrt.Assert(!gsxHas(got, infoA), "a checker tagged security runs by default under the analyzer (the command leaves it out)")
+		return
 	}
 	gsxrt.Assert(gsxHas(got, infoA) == !heavy, "analyzer default selection = no experimental/opinionated/performance/security tag")
 }
